@@ -149,3 +149,79 @@ theorem tapeSeq_cursor (progs : List (List Bool)) :
   simpa using this
 
 end QV.Par
+
+namespace QV.Par
+
+theorem tapeStep_lengths (progs : List (List Bool)) (τ : Tape) (j : Nat) :
+    (tapeStep progs τ j).pcs.length = τ.pcs.length ∧ (tapeStep progs τ j).got.length = τ.got.length := by
+  unfold tapeStep
+  cases progs[j]? with
+  | none => exact ⟨rfl, rfl⟩
+  | some p =>
+    cases τ.pcs[j]? with
+    | none => exact ⟨rfl, rfl⟩
+    | some pc =>
+      cases τ.got[j]? with
+      | none => exact ⟨rfl, rfl⟩
+      | some g =>
+        cases hb : p[pc]? with
+        | none => simp [hb]
+        | some b => cases b <;> simp [hb]
+
+theorem tapeFold_lengths (progs : List (List Bool)) :
+    ∀ (sched : List Nat) (τ : Tape),
+      (sched.foldl (tapeStep progs) τ).pcs.length = τ.pcs.length ∧
+      (sched.foldl (tapeStep progs) τ).got.length = τ.got.length := by
+  intro sched
+  induction sched with
+  | nil => intro τ; exact ⟨rfl, rfl⟩
+  | cons j sched ih =>
+    intro τ
+    rw [List.foldl_cons]
+    exact ⟨(ih _).1.trans (tapeStep_lengths progs τ j).1, (ih _).2.trans (tapeStep_lengths progs τ j).2⟩
+
+theorem tapeRun_lengths (progs : List (List Bool)) (sched : List Nat) :
+    (tapeRun progs sched).pcs.length = progs.length ∧ (tapeRun progs sched).got.length = progs.length := by
+  have h := tapeFold_lengths progs sched (tapeInit progs)
+  unfold tapeRun
+  simpa [tapeInit] using h
+
+/-- every job has executed all its steps -/
+def Finished (progs : List (List Bool)) (τ : Tape) : Prop :=
+  ∀ j : Nat, j < progs.length → τ.pcs[j]? = some (progs.getD j []).length
+
+/-- after ANY schedule that lets every job finish, the generator has advanced by the total number
+of drawing steps and every job holds as many answers as it has drawing steps. -/
+theorem tapeRun_finished (progs : List (List Bool)) (sched : List Nat)
+    (hf : Finished progs (tapeRun progs sched)) :
+    (tapeRun progs sched).got.map List.length = progs.map draws ∧
+    (tapeRun progs sched).cursor = (progs.map draws).sum := by
+  have I := tapeRun_inv progs sched
+  have hl := tapeRun_lengths progs sched
+  have h1 : (tapeRun progs sched).got.map List.length = progs.map draws := by
+    apply List.ext_getElem?
+    intro i
+    by_cases hi : i < progs.length
+    · have hig : i < (tapeRun progs sched).got.length := by rw [hl.2]; exact hi
+      have hp : progs[i]? = some (progs.getD i []) := by
+        simp [List.getD_eq_getElem?_getD, List.getElem?_eq_getElem hi]
+      have hg : (tapeRun progs sched).got[i]? = some (tapeRun progs sched).got[i] :=
+        List.getElem?_eq_getElem hig
+      have hc := I.count i _ _ _ hp (hf i hi) hg
+      rw [List.take_length] at hc
+      rw [List.getElem?_map, List.getElem?_map, hg, hp]
+      simp [hc, draws]
+    · have h1 : progs.length ≤ i := by omega
+      rw [List.getElem?_eq_none (by simpa [hl.2] using h1), List.getElem?_eq_none (by simpa using h1)]
+  refine ⟨h1, ?_⟩
+  have hperm := I.perm.length_eq
+  rw [List.length_range, List.length_flatten, h1] at hperm
+  exact hperm.symm
+
+theorem tapeSeq_finished (progs : List (List Bool)) : Finished progs (tapeRun progs (tapeSeq progs)) := by
+  intro j hj
+  have I := seqAt_prefix progs progs.length (Nat.le_refl _)
+  unfold tapeRun tapeSeq
+  exact (I.before j hj hj).1
+
+end QV.Par
